@@ -45,7 +45,7 @@ def float_cases(seed, n):
             s, t = r.randrange(1, 2000), r.randrange(-2000, 4000)
             # "scaled": the whole range of magnitudes the property allows (1e-100 .. 1e100), with weight on both ends where a
             # product of products under- or overflows although no product of differences does
-            sc = 2.0 ** (r.choice([-322, -310, -300, -290, -200, -60, 0, 60, 200, 290, 300, 310, 320]) if fam == "scaled" else r.randrange(-12, 3))
+            sc = 2.0 ** (r.choice([-322, -310, -300, -290, -200, -60, 0, 60, 200, 290, 300, 310, 312]) if fam == "scaled" else r.randrange(-12, 3))
             a = (x0 * sc, y0 * sc)
             b = ((x0 + s * dx) * sc, (y0 + s * dy) * sc)
             c = [(x0 + t * dx) * sc, (y0 + t * dy) * sc]
